@@ -130,6 +130,32 @@ CHECK_DEADLOCK FALSE
         c.sample(dict(kind="shared component script", steps=r.printed[len(r.printed) // 2]))
         c.log("shared component: %d scripts replayed, %d mismatches" % (len(r.printed), len(res.get("mismatches") or [])))
 
+    # 5. service level: a real service (graph.go, host.go, extensions.go) with components reporting from their own goroutines;
+    #    every event delivered to a StatusWatcher extension must be a legal step of its instance's state machine
+    if not c.replay:
+        rounds = c.pick(300, 3000)
+        tr = os.path.join(c.work, "svc.ndjson")
+        c.run([binp, "svc", str(c.seed), str(rounds), tr], timeout=900)
+        r = c.tlc("StatusFSM", "StatusSvcTrace", cfg="StatusSvcTrace.cfg", workers=1, files={"observed.ndjson": tr}, timeout=900,
+                  count=False, label="svc_trace", heap="8g")
+        if r.timed_out:
+            raise vlib.Inconclusive("service-level trace validation timed out")
+        if r.ok:
+            c.traces_validated += rounds
+            total += rounds
+            c.log("service level: %d lifetimes, every delivered event a legal step" % rounds)
+        else:
+            lines = open(tr).read().splitlines()
+            hw = [l for l in r.out.splitlines() if "REJECTED_AT" in l]
+            if not hw and not (r.error and r.error[0] == "invariant"):
+                raise vlib.Inconclusive("service-level trace validation failed: %s %s" % (r.error, r.out[-1500:]))
+            at = int(hw[0].replace(">>", "").split(",")[1]) if hw else 1
+            start = max(i for i in range(min(at, len(lines))) if '"reset"' in lines[i])
+            c.violation("service-level status events are not a path of the state machine: round starting at line %d, offending event %s; "
+                        "events so far %s" % (start + 1, lines[min(at - 1, len(lines) - 1)], lines[start + 1:at][-12:]),
+                        replay_obj=dict(kind="svc", trace=lines[start:at + 1]))
+        c.sample(dict(kind="service-level events (first round)", lines=open(tr).read().splitlines()[:12]))
+
     c.evaluations = total
     c.assumptions += ["Go sync.Mutex serialises reports (callbacks run under the reporter mutex)",
                       "transition relation = docs/component-status.md as implemented; deviations named in StatusFSM.tla"]
